@@ -25,13 +25,13 @@
  "tier": "wip",
  "harness": "h_link_proc",
  "enforce": ["link_proc"],
- "replace": ["strncpy"],
  "defines": ["LP_BS=1024"],
  "sources": ["lib/ext2fs/dir_iterate.c"],
- "unwind": 257,
- "unwind_reason": "link_proc is loop-free; only the two harness/spec loops over the 255 possible name bytes (name_len is an 8-bit on-disk field) are unwound, with unwinding assertions",
+ "unwind": 6,
+ "unwindset": {"h_link_proc.0": 257, "strncpy.0": 257, "strncpy.1": 1025},
+ "unwind_reason": "link_proc is loop-free; only harness/stub loops are unwound: over the 255 possible name bytes (name_len is an 8-bit on-disk field) and, in the strncpy stub, over the constant block size; unwinding assertions on",
  "functions": ["lib/ext2fs/link.c:link_proc", "lib/ext2fs/dir_iterate.c:ext2fs_get_rec_len", "lib/ext2fs/dir_iterate.c:ext2fs_set_rec_len"],
- "assumes": ["block size 1024 (unit link_proc_4k: 4096)", "the entry handed to the callback satisfies what ext2fs_process_dir_block checks before calling: 4-aligned offset < blocksize-8, rec_len >= 8, multiple of 4, offset+rec_len <= blocksize, name_len+8 <= rec_len, and it is not the checksum tail (the caller does not pass DIRENT_FLAG_INCLUDE_CSUM)", "ls->namelen == strlen(ls->name) <= 255, ls->err == 0, ls->sb == fs->super, callback blocksize == fs->blocksize (block directories; inline-data directories are not covered)", "libc strncpy is replaced by a contract stating its ISO C semantics at the ghost name index", "without the filetype feature the type byte of the new entry is only claimed to be 0 when the reused slot's stale type byte was 0 (always the case on a filesystem that never had the feature)"],
+ "assumes": ["block size 1024 (unit link_proc_4k: 4096)", "the entry handed to the callback satisfies what ext2fs_process_dir_block checks before calling: 4-aligned offset < blocksize-8, rec_len >= 8, multiple of 4, offset+rec_len <= blocksize, name_len+8 <= rec_len, and it is not the checksum tail (the caller does not pass DIRENT_FLAG_INCLUDE_CSUM)", "ls->namelen == strlen(ls->name) <= 255, ls->err == 0, ls->sb == fs->super, callback blocksize == fs->blocksize (block directories; inline-data directories are not covered)", "libc strncpy is a stub in the unit with ISO C semantics at the ghost name index (other copied bytes arbitrary, nothing outside dst[0..n) written, destination range asserted to be inside the block)", "without the filetype feature the type byte of the new entry is only claimed to be 0 when the reused slot's stale type byte was 0 (always the case on a filesystem that never had the feature)"],
  "native": false
 }
 */
@@ -43,10 +43,10 @@
  "tier": "wip",
  "harness": "h_link_proc",
  "enforce": ["link_proc"],
- "replace": ["strncpy"],
  "defines": ["LP_BS=4096"],
  "sources": ["lib/ext2fs/dir_iterate.c"],
- "unwind": 257,
+ "unwind": 6,
+ "unwindset": {"h_link_proc.0": 257, "strncpy.0": 257, "strncpy.1": 4097},
  "unwind_reason": "see link_proc_1k",
  "functions": ["lib/ext2fs/link.c:link_proc"],
  "assumes": ["block size 4096", "as link_proc_1k"],
@@ -79,139 +79,196 @@ struct in_link IN;
 
 #include "lib/ext2fs/link.c"
 
-static union { unsigned char b[LP_BS]; unsigned int align; } BLK;	/* the buffer the callback works on */
+static unsigned char BLKB[LP_BS] __attribute__((aligned(8)));	/* the buffer the callback works on */
 static struct struct_ext2_filsys FS;
 static struct ext2_super_block SB;
 static struct link_struct LS;
 
 #define OLDB (IN.blk)
-#define NEWB (BLK.b)
+#define NEWB (BLKB)
 #define BS ((unsigned)LP_BS)
-#define CSZ (IN.csum ? DE_TAIL : 0u)
 #define O (IN.offset)
-#define R (DE_REC(OLDB, O))
-#define N0 (O + R)
 #define NEED (DE_NEED(IN.namelen))
 
-/* end of the region the callback may use: E, plus a directly following unused entry inside the block (never the tail) */
-#define EMAX ((N0 + DE_HDR <= BS - CSZ && DE_INO(OLDB, N0) == 0 && N0 + DE_REC(OLDB, N0) <= BS) ? N0 + DE_REC(OLDB, N0) : N0)
+/*
+ * The spec reads every header byte ONCE into scalars (struct de) — array reads at symbolic indices are what
+ * the back end pays for — and is evaluated by single-level functions (DFCC cannot instrument nested calls in
+ * contract clauses).
+ */
+struct de { unsigned ino, rec, nl, ft; };
+#define RD(d, b, o) do { (d).ino = DE_INO(b, o); (d).rec = DE_REC(b, o); (d).nl = DE_NL(b, o); (d).ft = DE_FT(b, o); } while (0)
+#define ZERO(d) do { (d).ino = (d).rec = (d).nl = (d).ft = 0; } while (0)
+/* iterator-level validity of an entry whose header is d and which starts at o */
+#define V(d, o) ((((o) & 3) == 0) && (o) + DE_HDR <= BS && (d).rec >= DE_HDR && ((d).rec & 3) == 0 && (o) + (d).rec <= BS && (d).nl + DE_HDR <= (d).rec)
+#define ISTAIL(d, o) ((o) + DE_TAIL == BS && (d).ino == 0 && (d).rec == DE_TAIL && (d).nl == 0 && (d).ft == 0xDE)
 
-/* (spec functions are single-level — macros inside — because DFCC cannot instrument nested calls in contract clauses) */
+/* pre-state snapshot, taken by the harness before the call (ghost) */
+static struct de oE, oN, oT;		/* E, its follower N (if its header is inside the block), the tail slot */
+static unsigned g_n0, g_emax;		/* end of E; end of the region the callback may use */
+static unsigned char g_old_k, g_old_name_j;
+static int g_has_n;
+
 static int lp_pre(void)
 {
-	return O < BS && (O & 3) == 0 && O + DE_HDR < BS && DE_VALID(OLDB, O, BS) &&
-	       !(IN.csum && DE_INO(OLDB, O) == 0 && O == BS - DE_TAIL && DE_REC(OLDB, O) == DE_TAIL && DE_NL(OLDB, O) == 0 && DE_FT(OLDB, O) == 0xDE) &&
-	       IN.namelen <= 255 && IN.name[IN.namelen] == 0 && IN.done <= 1 && IN.k < BS && IN.j < 255;
+	struct de e;
+	if (!(O < BS && (O & 3) == 0 && O + DE_HDR < BS))
+		return 0;
+	RD(e, OLDB, O);
+	return V(e, O) && !(IN.csum && ISTAIL(e, O)) &&
+	       IN.namelen >= 1 && IN.namelen <= 255 && IN.name[IN.namelen] == 0 && IN.done <= 1 && IN.k < BS && IN.j < 255;
 }
 
-/* entry at p of the new block is the requested one (name compared at the ghost index j) */
-#define MATCH(p) ((p) + DE_HDR + IN.namelen <= BS && DE_INO(NEWB, p) == IN.ino && DE_NL(NEWB, p) == IN.namelen && \
-	(IN.j >= IN.namelen || NEWB[(p) + DE_HDR + IN.j] == IN.name[IN.j]) && \
-	(IN.filetype ? DE_FT(NEWB, p) == (unsigned)(IN.flags & 7) : (DE_FT(OLDB, p) != 0 || DE_FT(NEWB, p) == 0)))
+static void lp_snapshot(void)
+{
+	unsigned csz = IN.csum ? DE_TAIL : 0u;
+	RD(oE, OLDB, O);
+	g_n0 = O + oE.rec;
+	g_has_n = g_n0 + DE_HDR <= BS;
+	if (g_has_n)
+		RD(oN, OLDB, g_n0);
+	else
+		ZERO(oN);
+	RD(oT, OLDB, BS - DE_TAIL);
+	/* region end: E, plus a directly following unused entry lying inside the block whose header is not in the tail area */
+	g_emax = (g_n0 + DE_HDR <= BS - csz && oN.ino == 0 && g_n0 + oN.rec <= BS) ? g_n0 + oN.rec : g_n0;
+	g_old_k = OLDB[IN.k];
+	g_old_name_j = (O + DE_HDR + IN.j < BS) ? OLDB[O + DE_HDR + IN.j] : 0;
+}
 
-#define CHANGED_K (NEWB[IN.k] != OLDB[IN.k])
-#define K_IN(lo, hi) (IN.k >= (lo) && IN.k < (hi))
-#define P2 (O + DE_REC(NEWB, O))
+#define V_TILE  1u
+#define V_FRAME 2u
+#define V_KEEP  4u
+#define V_NEW   8u
+#define V_ROOM  16u
+#define V_TAIL  32u
+#define V_FLAGS 64u
 
-static int lp_tile(void)
+/* returns the set of violated clauses (0 = the postcondition holds) */
+static unsigned lp_post(int ret)
 {
-	unsigned emax = EMAX;
-	int a = DE_TILED2(NEWB, O, N0, BS) && !(K_IN(N0, emax) && CHANGED_K);
-	int b = emax > N0 && DE_TILED2(NEWB, O, emax, BS);
-	return a || b;
-}
-static int lp_frame(void) { return K_IN(O, EMAX) || !CHANGED_K; }
-static int lp_keep(void)
-{
-	if (DE_INO(OLDB, O) == 0)
-		return 1;
-	return DE_INO(NEWB, O) == DE_INO(OLDB, O) && DE_NL(NEWB, O) == DE_NL(OLDB, O) && DE_FT(NEWB, O) == DE_FT(OLDB, O) &&
-	       (IN.j >= DE_NL(OLDB, O) || NEWB[O + DE_HDR + IN.j] == OLDB[O + DE_HDR + IN.j]);
-}
-static int lp_new(void)
-{
-	unsigned p2 = P2;
-	if (!(LS.done > IN.done))
-		return 1;
-	return MATCH(O) || (p2 + DE_HDR <= EMAX && MATCH(p2));
-}
-static int lp_room(int ret)
-{
-	unsigned p2 = P2;
-	if (IN.done)
-		return 1;
-	if (LS.done && EMAX - O < NEED)
-		return 0;			/* linked although the region has no room */
-	if (LS.err)
-		return 1;
-	if (DE_INO(OLDB, O) == 0)
-		return R < NEED || LS.done == 1;
-	if (R >= DE_NEED(DE_NL(OLDB, O)) + NEED)	/* live entry with enough slack: split, iterator continues on a free slot */
-		return ret == DIRENT_CHANGED && p2 + DE_HDR < BS && DE_VALID(NEWB, p2, BS) &&
-		       DE_INO(NEWB, p2) == 0 && DE_REC(NEWB, p2) >= NEED && !DE_IS_TAIL(NEWB, p2, BS);
-	return 1;
-}
-static int lp_tail(void)
-{
-	unsigned t = BS - DE_TAIL;
-	if (!IN.csum || !DE_IS_TAIL(OLDB, t, BS))
-		return 1;
-	/* the tail is well placed w.r.t. what the callback can see: E ends at it, or N is a valid entry ending before it */
-	if (!(N0 == t || (N0 + DE_HDR <= t && DE_VALID(OLDB, N0, BS) && N0 + DE_REC(OLDB, N0) <= t)))
-		return 1;
-	return DE_IS_TAIL(NEWB, t, BS) && !(K_IN(t, BS) && CHANGED_K);
-}
-static int lp_flags(int ret)
-{
+	unsigned bad = 0;
+	struct de e1, e2, nT;
+	unsigned p2, has2;
+	int changed_k = NEWB[IN.k] != g_old_k;
+	int linked = LS.done > (int)IN.done;
+	unsigned char name1_j, name2_j;
+
+	RD(e1, NEWB, O);
+	p2 = O + e1.rec;
+	has2 = p2 + DE_HDR <= BS;
+	if (has2)
+		RD(e2, NEWB, p2);
+	else
+		ZERO(e2);
+	RD(nT, NEWB, BS - DE_TAIL);
+	name1_j = (O + DE_HDR + IN.j < BS) ? NEWB[O + DE_HDR + IN.j] : 0;
+	name2_j = (p2 + DE_HDR + IN.j < BS) ? NEWB[p2 + DE_HDR + IN.j] : 0;
+
+	/* TILE: [O, n0) with N untouched, or [O, emax), is exactly covered by one or two valid entries */
+	{
+		int one_a = V(e1, O) && p2 == g_n0;
+		int two_a = V(e1, O) && p2 < g_n0 && has2 && V(e2, p2) && p2 + e2.rec == g_n0;
+		int n_untouched = !(IN.k >= g_n0 && IN.k < g_emax && changed_k);
+		int one_b = V(e1, O) && p2 == g_emax;
+		int two_b = V(e1, O) && p2 < g_emax && has2 && V(e2, p2) && p2 + e2.rec == g_emax;
+		if (!(((one_a || two_a) && n_untouched) || (g_emax > g_n0 && (one_b || two_b))))
+			bad |= V_TILE;
+	}
+	/* FRAME */
+	if (changed_k && !(IN.k >= O && IN.k < g_emax))
+		bad |= V_FRAME;
+	/* KEEP */
+	if (oE.ino != 0 &&
+	    !(e1.ino == oE.ino && e1.nl == oE.nl && e1.ft == oE.ft && (IN.j >= oE.nl || name1_j == g_old_name_j)))
+		bad |= V_KEEP;
+	/* NEW: entry 1 or entry 2 of the region is the requested one */
+	{
+		int m1 = O + DE_HDR + IN.namelen <= g_emax && e1.ino == IN.ino && e1.nl == IN.namelen &&
+			 (IN.j >= IN.namelen || name1_j == IN.name[IN.j]) &&
+			 (IN.filetype ? e1.ft == (unsigned)(IN.flags & 7) : (oE.ft != 0 || e1.ft == 0));
+		int m2 = has2 && p2 + DE_HDR + IN.namelen <= g_emax && e2.ino == IN.ino && e2.nl == IN.namelen &&
+			 (IN.j >= IN.namelen || name2_j == IN.name[IN.j]) &&
+			 (IN.filetype ? e2.ft == (unsigned)(IN.flags & 7) : e2.ft == 0);
+		if (linked && !(m1 || m2))
+			bad |= V_NEW;
+	}
+	/* ROOM */
+	if (!IN.done) {
+		if (LS.done && g_emax - O < NEED)
+			bad |= V_ROOM;			/* linked although the region has no room */
+		else if (LS.err)
+			;
+		else if (oE.ino == 0) {
+			if (oE.rec >= NEED && LS.done != 1)
+				bad |= V_ROOM;		/* free slot with room not used */
+		} else if (oE.rec >= DE_NEED(oE.nl) + NEED) {
+			/* live entry with slack: split; the entry the iterator visits next is a free slot with room */
+			if (!(ret == DIRENT_CHANGED && p2 + DE_HDR < BS && V(e2, p2) && e2.ino == 0 && e2.rec >= NEED &&
+			      !(IN.csum && ISTAIL(e2, p2))))
+				bad |= V_ROOM;
+		}
+	}
+	/* TAIL: a tail that is well placed w.r.t. what the callback can see (E ends at it, or N is a valid entry ending at or before it) survives */
+	if (IN.csum && ISTAIL(oT, BS - DE_TAIL) &&
+	    (g_n0 == BS - DE_TAIL || (g_n0 + DE_HDR <= BS - DE_TAIL && V(oN, g_n0) && g_n0 + oN.rec <= BS - DE_TAIL))) {
+		if (!ISTAIL(nT, BS - DE_TAIL) || (IN.k >= BS - DE_TAIL && changed_k))
+			bad |= V_TAIL;
+	}
+	/* FLAGS */
 	if ((ret & ~(DIRENT_CHANGED | DIRENT_ABORT)) != 0)
-		return 0;
-	if (IN.done)
-		return ret == DIRENT_ABORT && !CHANGED_K && LS.done == IN.done;
-	if (LS.done != 0 && LS.done != 1)
-		return 0;
-	if (LS.done == 1 && ret != (DIRENT_CHANGED | DIRENT_ABORT))
-		return 0;
-	if (CHANGED_K && !(ret & DIRENT_CHANGED))
-		return 0;
-	if (LS.err && (!(ret & DIRENT_ABORT) || CHANGED_K || LS.done))
-		return 0;
-	return 1;
+		bad |= V_FLAGS;
+	if (IN.done) {
+		if (!(ret == DIRENT_ABORT && !changed_k && LS.done == IN.done))
+			bad |= V_FLAGS;
+	} else {
+		if (LS.done != 0 && LS.done != 1)
+			bad |= V_FLAGS;
+		if (LS.done == 1 && ret != (DIRENT_CHANGED | DIRENT_ABORT))
+			bad |= V_FLAGS;
+		if (changed_k && !(ret & DIRENT_CHANGED))
+			bad |= V_FLAGS;
+		if (LS.err && (!(ret & DIRENT_ABORT) || changed_k || LS.done))
+			bad |= V_FLAGS;
+	}
+	return bad;
 }
 
 static int link_proc(ext2_ino_t dir, int entru, struct ext2_dir_entry *dirent, int offset, int blocksize,
 		     char *buf, void *priv_data)
-	REQUIRES(buf == (char *)BLK.b && priv_data == (void *)&LS && dirent == (struct ext2_dir_entry *)(BLK.b + IN.offset))
+	REQUIRES(buf == (char *)BLKB && priv_data == (void *)&LS && dirent == (struct ext2_dir_entry *)(BLKB + IN.offset))
 	REQUIRES(offset == (int)IN.offset && blocksize == LP_BS && LS.fs == &FS && FS.blocksize == LP_BS && FS.super == &SB && LS.sb == &SB)
 	REQUIRES(LS.err == 0 && LS.namelen == (int)IN.namelen && LS.name == (const char *)IN.name && LS.done == IN.done)
 	REQUIRES(LS.inode == IN.ino && LS.flags == IN.flags)
 	REQUIRES(lp_pre())
-	ENSURES(lp_tile())
-	ENSURES(lp_frame())
-	ENSURES(lp_keep())
-	ENSURES(lp_new())
-	ENSURES(lp_room(RET))
-	ENSURES(lp_tail())
-	ENSURES(lp_flags(RET))
-	ASSIGNS(__CPROVER_object_whole(BLK.b), LS.err, LS.done);
+	ENSURES(lp_post(RET) == 0)
+	ASSIGNS(__CPROVER_object_whole(BLKB), LS.err, LS.done);
 
 /*
- * libc strncpy replaced by its exact ISO C semantics at the ghost index IN.j (AUTHORING: byte-wise libc models
- * over a symbolic length do not scale): dst[j] = src[j] if there is no NUL in src[0..j), else 0; only dst[0..n)
- * is written.
+ * libc strncpy: CBMC's byte-wise model (255 symbolic-index writes) and a DFCC havoc of a symbolic-length
+ * slice both blow up on a block-sized array (probed: > 150 M clauses), so under the verifier strncpy is a
+ * stub with ISO C semantics at the ghost index IN.j: dst[j] = src[j] if there is no NUL in src[0..j), else 0;
+ * every other byte of dst[0..n) becomes ARBITRARY (worst case), nothing outside dst[0..n) is written, and the
+ * destination range must lie inside the block.  The loop runs over the constant block size with constant
+ * indices, which the back end handles cheaply.  Native replay uses the real strncpy.
  */
-static int lp_nul_before_j(const char *src)
+#ifndef VERIF_NATIVE
+unsigned char nondet_uchar(void);
+char *strncpy(char *dst, const char *src, size_t n)
 {
+	__CPROVER_assert(__CPROVER_same_object(dst, BLKB) && __CPROVER_w_ok(dst, n), "CHECK:strncpy destination inside the block");
+	__CPROVER_assert(src == (const char *)IN.name && n <= 255, "CHECK:strncpy source is the requested name");
+	size_t d = (size_t)((unsigned char *)dst - BLKB);
 	int seen = 0;
 	for (unsigned i = 0; i < 255; i++)
 		if (i < IN.j && src[i] == 0)
 			seen = 1;
-	return seen;
+	unsigned char exact = seen ? 0 : (unsigned char)src[IN.j];
+	for (unsigned i = 0; i < LP_BS; i++)
+		if (i >= d && i - d < n)
+			BLKB[i] = (i - d == IN.j) ? exact : nondet_uchar();
+	return dst;
 }
-char *strncpy(char *dst, const char *src, size_t n)
-	REQUIRES(n <= 255 && src == (const char *)IN.name && __CPROVER_w_ok(dst, n))
-	ASSIGNS(__CPROVER_object_upto(dst, n))
-	ENSURES(RET == dst)
-	ENSURES(IN.j >= n || dst[IN.j] == (lp_nul_before_j(src) ? 0 : src[IN.j]));
+#endif
 
 void h_link_proc(void)
 {
@@ -221,15 +278,13 @@ void h_link_proc(void)
 	for (unsigned i = 0; i < 255; i++)
 		if (i < IN.namelen)
 			ASSUME(IN.name[i] != 0);
-	memset(&FS, 0, sizeof(FS));
-	memset(&SB, 0, sizeof(SB));
 	FS.blocksize = LP_BS;
 	FS.super = &SB;
 	if (IN.csum)
 		SB.s_feature_ro_compat |= EXT4_FEATURE_RO_COMPAT_METADATA_CSUM;
 	if (IN.filetype)
 		SB.s_feature_incompat |= EXT2_FEATURE_INCOMPAT_FILETYPE;
-	memcpy(BLK.b, IN.blk, LP_BS);
+	memcpy(BLKB, IN.blk, LP_BS);
 	LS.fs = &FS;
 	LS.name = (const char *)IN.name;
 	LS.namelen = IN.namelen;
@@ -239,20 +294,22 @@ void h_link_proc(void)
 	LS.sb = &SB;
 	LS.blocksize = LP_BS;
 	LS.err = 0;
+	lp_snapshot();
 
-	int ret = link_proc(IN.dir, IN.entry, (struct ext2_dir_entry *)(BLK.b + IN.offset), IN.offset, LP_BS,
-			    (char *)BLK.b, &LS);
+	int ret = link_proc(IN.dir, IN.entry, (struct ext2_dir_entry *)(BLKB + IN.offset), IN.offset, LP_BS,
+			    (char *)BLKB, &LS);
 
-	CHECK(lp_tile(), "TILE: the region is exactly covered by one or two valid entries");
-	CHECK(lp_frame(), "FRAME: no byte outside the entry and its absorbable free follower changes");
-	CHECK(lp_keep(), "KEEP: a live entry keeps inode, name_len, type and name");
-	CHECK(lp_new(), "NEW: when linked, an entry of the region carries the requested inode, name_len, name and type");
-	CHECK(lp_room(ret), "ROOM: free slot with room is used, live entry with slack is split for the next callback, never linked without room");
-	CHECK(lp_tail(), "TAIL: a well-placed checksum tail is never absorbed or overwritten");
-	CHECK(lp_flags(ret), "FLAGS: linked => CHANGED|ABORT, changed => CHANGED, error => ABORT and unchanged");
-	if (LS.done > IN.done) REACH("linked");
-	if (!IN.done && !LS.done && ret == DIRENT_CHANGED && DE_INO(OLDB, O) != 0 && DE_REC(NEWB, O) < R) REACH("split");
-	if (DE_REC(NEWB, O) > R) REACH("absorbed");
+	unsigned bad = lp_post(ret);
+	CHECK(!(bad & V_TILE), "TILE: the region is exactly covered by one or two valid entries");
+	CHECK(!(bad & V_FRAME), "FRAME: no byte outside the entry and its absorbable free follower changes");
+	CHECK(!(bad & V_KEEP), "KEEP: a live entry keeps inode, name_len, type and name");
+	CHECK(!(bad & V_NEW), "NEW: when linked, an entry of the region carries the requested inode, name_len, name and type");
+	CHECK(!(bad & V_ROOM), "ROOM: free slot with room is used, live entry with slack is split for the next callback, never linked without room");
+	CHECK(!(bad & V_TAIL), "TAIL: a well-placed checksum tail is never absorbed or overwritten");
+	CHECK(!(bad & V_FLAGS), "FLAGS: linked => CHANGED|ABORT, changed => CHANGED, error => ABORT and unchanged");
+	if (LS.done > (int)IN.done) REACH("linked");
+	if (!IN.done && !LS.done && ret == DIRENT_CHANGED && oE.ino != 0 && DE_REC(NEWB, O) < oE.rec) REACH("split");
+	if (DE_REC(NEWB, O) > oE.rec) REACH("absorbed");
 	if (LS.err) REACH("error");
 	REACH("end");
 }
